@@ -377,22 +377,36 @@ func fastModRule(P *Program, R *Report) {
 			}
 		})
 		R.decide(rule, ks+":b", "b is the bit length of p", okB, "", P.Pos(fn.Pos()))
-		// enabled = true only under |c| < 60
+		// enabled = true only under |c| < 60: a constant true stored under that test, or the test's own value
 		okEn := false
+		nEn := 0
+		smallC := func(a Atom) bool {
+			g, ok := parseGuard(normAtom(a), be)
+			return ok && g.Kind == "bitlen" && g.Subject == fm+".c" && ((g.Rel == "<" && g.BoundA.isConst() && g.BoundA.C <= 60) || (g.Rel == "<=" && g.BoundA.isConst() && g.BoundA.C < 60))
+		}
 		allInstrs(fn, func(i ssa.Instruction) {
 			st, ok := i.(*ssa.Store)
 			if !ok || desc(st.Addr) != fm+".enabled" {
 				return
 			}
-			if v, isB := boolConst(st.Val); !isB || !v {
+			if v, isB := boolConst(st.Val); isB {
+				if !v {
+					return
+				}
+				nEn++
+				good := false
+				for _, a := range controllingConds(st.Block()) {
+					if smallC(a) {
+						good = true
+					}
+				}
+				okEn = good
 				return
 			}
-			for _, a := range controllingConds(st.Block()) {
-				if g, ok := parseGuard(normAtom(a), be); ok && g.Kind == "bitlen" && g.Subject == fm+".c" && ((g.Rel == "<" && g.BoundA.isConst() && g.BoundA.C <= 60) || (g.Rel == "<=" && g.BoundA.isConst() && g.BoundA.C < 60)) {
-					okEn = true
-				}
-			}
+			nEn++
+			okEn = smallC(Atom{Fn: fn, V: st.Val, Want: True})
 		})
+		okEn = okEn && nEn == 1
 		R.decide(rule, ks+":small-c-only", "the fast path is enabled only when c = 2^b - p has fewer than 60 bits", okEn, "", P.Pos(fn.Pos()))
 	}
 	fn := mustFunc(P, R, rule, km)
@@ -408,24 +422,16 @@ func fastModRule(P *Program, R *Report) {
 		}
 		return desc(c.Call.Args[0]) == "arg#1" && desc(c.Call.Args[1]) == "arg#2" && desc(c.Call.Args[2]) == fm+".p"
 	}
-	nNeg, nDis := 0, 0
+	nFallback := 0
 	for _, r := range returnsOf(fn) {
-		if !isFallback(r.Results[0]) {
-			continue
-		}
-		for _, a := range controllingConds(r.Block()) {
-			a = normAtom(a)
-			if g, ok := parseGuard(a, be); ok && g.Kind == "big" && g.Subject == "arg#2" && g.Rel == "<" && g.Bound.equal(tconst(0)) {
-				nNeg++
-			}
-			if desc(a.V) == fm+".enabled" && a.Want == False {
-				nDis++
-			}
+		if isFallback(r.Results[0]) {
+			nFallback++
 		}
 	}
-	// and no fast-path result is computed for a negative x: x >= 0 is established on every path to such a return
-	okNonNeg := true
-	var negDetail []string
+	// no fast-path result is computed for a negative x or a modulus without table: x >= 0 and enabled are
+	// established on every path to such a return (so those inputs can only reach the big.Int.Mod returns)
+	okNonNeg, okEnabled := true, true
+	var negDetail, disDetail []string
 	for _, r := range returnsOf(fn) {
 		if isFallback(r.Results[0]) {
 			continue
@@ -440,9 +446,16 @@ func fastModRule(P *Program, R *Report) {
 			okNonNeg = false
 			negDetail = append(negDetail, res.Path)
 		}
+		q2 := &MustPass{P: P, Match: func(a Atom) bool { return desc(a.V) == fm+".enabled" && a.Want == True }}
+		q2.init()
+		res2 := q2.search(fn, AcceptAny(), 0, searchOpts{startAt: []*mpState{{b: r.Block(), note: "return at " + P.Pos(r.Pos())}}, startInstr: r})
+		if !res2.Holds {
+			okEnabled = false
+			disDetail = append(disDetail, res2.Path)
+		}
 	}
-	R.decide(rule, km+":negative-fallback", "a negative argument is reduced by big.Int.Mod, and only non-negative ones take the fast path", nNeg >= 1 && okNonNeg, strings.Join(negDetail, "\n"), P.Pos(fn.Pos()))
-	R.decide(rule, km+":disabled-fallback", "a modulus without fast path is reduced by big.Int.Mod", nDis >= 1, "", P.Pos(fn.Pos()))
+	R.decide(rule, km+":negative-fallback", "a negative argument is reduced by big.Int.Mod, and only non-negative ones take the fast path", nFallback >= 1 && okNonNeg, strings.Join(negDetail, "\n"), P.Pos(fn.Pos()))
+	R.decide(rule, km+":disabled-fallback", "a modulus without fast path is reduced by big.Int.Mod", nFallback >= 1 && okEnabled, strings.Join(disDetail, "\n"), P.Pos(fn.Pos()))
 	// no other return may be reached with a negative x: the sign test dominates everything but the disabled fallback
 	var signBlock *ssa.BasicBlock
 	for _, c := range callsIn(fn) {
@@ -474,13 +487,17 @@ func fastModRule(P *Program, R *Report) {
 		if c, ok := v.(*ssa.Call); ok {
 			switch bigMethod(c) {
 			case "Set":
-				g := false
-				for _, a := range controllingConds(r.Block()) {
-					if gd, ok := parseGuard(normAtom(a), be); ok && gd.Kind == "big" && gd.Subject == desc(c.Call.Args[1]) && gd.Rel == "<" && gd.Bound.equal(tsym(fm+".p")) {
-						g = true
+				src := desc(c.Call.Args[1])
+				qs := &MustPass{P: P, Match: func(a Atom) bool {
+					gd, ok := parseGuard(a, be)
+					if !ok {
+						return false
 					}
-				}
-				if !g {
+					rel, ok := gd.relBetween(src, tsym(fm+".p"))
+					return ok && rel == "<"
+				}}
+				qs.init()
+				if !qs.search(fn, AcceptAny(), 0, searchOpts{startAt: []*mpState{{b: r.Block(), note: "return at " + P.Pos(r.Pos())}}, startInstr: r}).Holds {
 					okRed = false
 					details = append(details, P.Pos(r.Pos())+": value copied without the test < p")
 				}
@@ -497,7 +514,11 @@ func fastModRule(P *Program, R *Report) {
 		// plain `return ret`: on every path to it either ret < p was established or ret -= p executed
 		q := &MustPass{P: P, Match: func(a Atom) bool {
 				gd, ok := parseGuard(a, be)
-				return ok && gd.Kind == "big" && gd.Subject == "arg#1" && gd.Rel == "<" && gd.Bound.equal(tsym(fm+".p"))
+				if !ok {
+					return false
+				}
+				rel, ok := gd.relBetween("arg#1", tsym(fm+".p"))
+				return ok && rel == "<"
 			},
 			Instr: func(_ *ssa.Function, i ssa.Instruction) bool {
 				c, ok := i.(*ssa.Call)
